@@ -30,6 +30,11 @@ func settleCallsDepth(l *Loaded, fn *ssa.Function, settle *ssa.Function, depth i
 			out = append(out, cv)
 			continue
 		}
+		// a new helper (see transparent.go) is part of its caller: the settling calls inside it are the caller's
+		if newHelperCallee(call) != nil && depth < 3 {
+			out = append(out, settleCallsDepth(l, g, settle, depth+1)...)
+			continue
+		}
 		if fnPkgPath(g) == escrowKeeperPkg && g != fn && errResultIndex(g) >= 0 && depth < 3 {
 			// wrapper: every success return of g is on the ok-edge of a settling call inside g (or returns its error)
 			inners := settleCallsDepth(l, g, settle, depth+1)
@@ -718,7 +723,21 @@ func (c *Check) staleRecordRule(rule string, fn *ssa.Function, s *ssa.Call, mut 
 	name := fn.Name()
 	// stale records
 	for _, call := range callsIn(fn, false) {
-		if call == ssa.CallInstruction(s) || !isMutation(call, mut) || !instrDominates(s, call) {
+		if call == ssa.CallInstruction(s) || !isMutation(call, mut) {
+			continue
+		}
+		// settlement and write are compared in the function that contains the write; a settlement inside a new
+		// helper is represented there by the helper's call
+		home := call.Parent()
+		sHere := s
+		if s.Parent() != home {
+			li, _ := liftTo(home, s).(*ssa.Call)
+			if li == nil {
+				continue
+			}
+			sHere = li
+		}
+		if !instrDominates(sHere, call) {
 			continue
 		}
 		for _, a := range call.Common().Args {
@@ -726,7 +745,7 @@ func (c *Check) staleRecordRule(rule string, fn *ssa.Function, s *ssa.Call, mut 
 			if kind == "" {
 				continue
 			}
-			fresh, why := recordFreshAt(fn, a, s, call)
+			fresh, why := recordFreshAt(home, a, sHere, call)
 			c.Ob(rule, name+": "+kind+" written after settlement was loaded after it ("+calleeMethod(call)+" of "+symShort(a)+")", call.Pos(), fresh, why)
 		}
 	}
